@@ -1,6 +1,6 @@
 (* C01 / C02 - proofs about the model of the server's authentication gate. *)
 From Hy Require Import gen.ParamsC01 model.C01_ServerAuth.
-From Coq Require Import ZArith Lia.
+From Coq Require Import ZArith Lia Arith.
 Local Open Scope N_scope.
 Set Warnings "-unused-intro-pattern".
 
